@@ -22,7 +22,7 @@ RULE = (
 )
 ASSUMPTIONS = ["order on mesh-type patterns is only required to be a total order consistent with ==; for permutations it must be (length, lexicographic)"]
 REQUIRED = ["calls.MeshPatt.__hash__", "calls.MeshPatt.__eq__", "calls.MeshPatt.__lt__", "hash.stable_checked", "eq.true_checked", "order.cross_subclass", "triples.checked",
-            "churn.histories", "lookup.checked", "sorted.checked", "derived.twins"]
+            "churn.histories", "lookup.checked", "sorted.checked", "derived.twins", "nested.shading_families"]
 MIN_NONTRIVIAL = 500
 CTX = None
 MON = None
@@ -393,6 +393,23 @@ def run(ctx, spec):
             for _ in range(20):
                 _triple(*[rng.choice(ps) for _ in range(3)])
         ctx.count("long.perm_lengths", 8)
+        # nested shadings on one underlying permutation: every prefix (in sorted cell order) of a grid against longer
+        # prefixes and against itself with a few later cells added - all sizes 0..(k+1)^2, so every "exactly 2^j cells" case
+        for k in (3, 4, 5, 7):
+            q = Perm(rng.sample(range(k), k))
+            cells = sorted((x, y) for x in range(k + 1) for y in range(k + 1))
+            for size in range(len(cells) + 1):
+                a = MeshPatt(q, cells[:size])
+                for more in (1, 2, 5):
+                    if size + more <= len(cells):
+                        _pair(a, MeshPatt(q, cells[: size + more]))
+                later = cells[size:]
+                if later:
+                    extra = rng.sample(later, min(len(later), rng.randint(1, 3)))
+                    _pair(a, a.shade(*extra))
+                    _pair(MeshPatt(q, cells[:size] + extra), a)
+                    _triple(a, MeshPatt(q, cells[:size] + extra), MeshPatt(q, cells[: max(0, size - 1)] + extra))
+            ctx.count("nested.shading_families")
     elif spec["kind"] == "triples":
         meshes = [o for o in U if is_meshtype(o)]
         perms = [o for o in U if isinstance(o, Perm)]
